@@ -430,3 +430,245 @@ Proof.
   destruct (maxBufSize <=? sz p)%Z; [split; reflexivity|split; [exact Hp|reflexivity]].
 Qed.
 
+
+Lemma signed_facts64 k n : signed k = true -> n < 2 ^ 64 ->
+  model_sval k (sgn 64 n) = sz n /\ model_mag k (sgn 64 n) = tmag n 0.
+Proof. intros Hk Hn. change (sgn 64 n) with (sz n). apply signed_facts; assumption. Qed.
+
+(** ---- fmtInt ---- *)
+Theorem fmtInt_is_translation fuel w tr buf sb g base pad :
+  buf_ok buf -> gany_wf g -> base = 8 \/ base = 10 \/ base = 16 -> pad < 2 ^ 64 -> (34 <= fuel)%nat ->
+  exists cs buf',
+    fmt_int buf (of_gany g) (Z.of_N base) (sz pad) = Ok (cs, buf') /\
+    go_kfmt_fmtInt fuel (mkw tr buf sb) w g base pad = GOk (mkw (pushed w cs tr) buf' sb, tt) /\
+    buf_ok buf'.
+Proof.
+  intros Hb Hg Hbase Hp Hf.
+  assert (HbZ : (Z.of_N base = 8 \/ Z.of_N base = 10 \/ Z.of_N base = 16)%Z) by lia.
+  destruct (fmt_int_total buf (of_gany g) (Z.of_N base) (sz pad) Hb HbZ) as [[cs buf'] [E Hl]].
+  exists cs, buf'. split; [exact E|].
+  destruct (pad_clamp pad Hp) as [Hp' Hpz]. cbv zeta in Hp', Hpz.
+  unfold go_kfmt_fmtInt.
+  assert (Hpar : forall d0 c0 : N,
+    (if base =? 8 then (gw 64 8, gw 8 48)
+       else let '(v_divider, v_padCh) :=
+              if base =? 10 then (gw 64 10, gw 8 32)
+              else let '(v_divider, v_padCh) := if base =? 16 then (gw 64 16, gw 8 48) else (d0, c0) in
+                   (v_divider, v_padCh) in
+            (v_divider, v_padCh)) = (base, if (Z.of_N base =? 10)%Z then 32 else 48)).
+  { intros d0 c0. destruct Hbase as [-> | [-> | ->]]; reflexivity. }
+  cbv beta zeta. rewrite Hpar. cbv beta iota zeta.
+  set (pl := if gsle 64 kfmt_maxBufSize pad then gsub 64 kfmt_maxBufSize 1 else pad) in *.
+  set (pc := if (Z.of_N base =? 10)%Z then 32 else 48) in *.
+  destruct g as [n|n|n|n|n|n|n|n|n|n|b|s|s|]; cbn [gany_wf] in Hg;
+    cbn [gas_u8 gas_u16 gas_u32 gas_u64 gas_uptr gas_i8 gas_i16 gas_i32 gas_i64 gas_int of_gany] in *.
+  11-14: destruct Hbase as [-> | [-> | ->]];
+    match type of E with fmt_int ?b ?a ?x ?y = _ =>
+      assert (E' : fmt_int b a x y = Ok ([kfmt_errWrongArgType], b)) by reflexivity; rewrite E' in E end;
+    injection E as <- <-; (split; [reflexivity|exact Hb]).
+  all: rewrite fmt_int_core in E by exact HbZ; rewrite N2Z.id in E; rewrite <- Hpz in E; fold pc in E.
+  (* unsigned kinds *)
+  1-5: match type of E with int_core _ _ _ _ (model_sval ?k _ <? 0)%Z _ = _ =>
+         assert (Hn : n < 2 ^ 64) by (first [exact Hg | eapply N.lt_trans; [exact Hg|reflexivity]]);
+         destruct (unsigned_facts k n eq_refl Hn) as [F1 F2]; rewrite F1, F2 in E end.
+  1-3,5: apply k8_sim; [exact Hb|exact Hp'|reflexivity|rewrite gw64_small' by exact Hn; exact Hn|exact Hf|exact E].
+  1: rewrite (gw64_small' n) in E by exact Hn;
+     apply k8_sim; [exact Hb|exact Hp'|reflexivity|exact Hn|exact Hf|exact E].
+  (* signed kinds *)
+  1-3: match type of E with int_core _ _ _ _ (model_sval ?k (sgn ?bits _) <? 0)%Z _ = _ =>
+         assert (Hs : gsext bits 64 n < 2 ^ 64) by (apply gsext_lt; [tauto|exact Hg]);
+         rewrite <- (gsext_sgn bits n) in E by (try exact Hg; tauto);
+         destruct (signed_facts k (gsext bits 64 n) eq_refl Hs) as [F1 F2]; rewrite F1, F2 in E end;
+       apply k8_sim; [exact Hb|exact Hp'|exact Hs|reflexivity|exact Hf|exact E].
+  1-2: match type of E with int_core _ _ _ _ (model_sval ?k _ <? 0)%Z _ = _ =>
+         destruct (signed_facts64 k n eq_refl Hg) as [F1 F2]; rewrite F1, F2 in E end.
+  - apply k8_sim; [exact Hb|exact Hp'|exact Hg|reflexivity|exact Hf|exact E].
+  - rewrite gw64_small' by exact Hg. apply k8_sim; [exact Hb|exact Hp'|exact Hg|reflexivity|exact Hf|exact E].
+Qed.
+
+(** ---- fmtRepeat, fmtBool ---- *)
+Lemma pushed_cons w c cs tr : pushed w (c :: cs) tr = pushed w cs (ev w c :: tr).
+Proof. unfold pushed. cbn [map rev]. rewrite <- app_assoc. reflexivity. Qed.
+
+Lemma pushed_app w a b tr : pushed w (a ++ b) tr = pushed w b (pushed w a tr).
+Proof. unfold pushed. rewrite map_app, rev_app_distr, app_assoc. reflexivity. Qed.
+
+Lemma repeat_sim ch cnt w buf sb : cnt < 2 ^ 64 -> forall k i tr f,
+  (Z.of_N i + Z.of_nat k = Z.max 0 (sz cnt))%Z -> (k < f)%nat ->
+  gloop f (go_kfmt_fmtRepeat_loop1 ch cnt w) (mkw tr buf sb, i)
+    = GOk (inl (mkw (pushed w (repeat sb k) tr) buf sb, i + N.of_nat k)).
+Proof.
+  intros Hc. assert (Hc63 : (sz cnt < 9223372036854775808)%Z).
+  { unfold sz. rewrite two64_lit in Hc. destruct (N.ltb_spec cnt 9223372036854775808); lia. }
+  induction k as [|k IH]; intros i tr f Hik Hf; (destruct f as [|f]; [lia|]);
+    rewrite gloop_S; unfold go_kfmt_fmtRepeat_loop1 at 1; cbv beta iota zeta; wsimp;
+    rewrite gslt_sz by (try exact Hc; rewrite two64_lit; lia); rewrite (sz_small i) by lia.
+  - destruct (Z.ltb_spec (Z.of_N i) (sz cnt)); [lia|]. rewrite N.add_0_r. reflexivity.
+  - destruct (Z.ltb_spec (Z.of_N i) (sz cnt)); [|lia].
+    rewrite (gw64_small' (i + 1)) by (rewrite two64_lit; lia).
+    transitivity (gloop f (go_kfmt_fmtRepeat_loop1 ch cnt w) (mkw (ev w sb :: tr) buf sb, i + 1)); [reflexivity|].
+    rewrite IH by lia. cbn [repeat]. rewrite pushed_cons.
+    replace (i + 1 + N.of_nat k) with (i + N.of_nat (S k)) by lia. reflexivity.
+Qed.
+
+Theorem fmtRepeat_is_translation fuel w tr buf x ch cnt :
+  cnt < 2 ^ 64 -> (Z.to_nat (sz cnt) < fuel)%nat ->
+  fmt_repeat ch (sz cnt) = Ok (repeat [ch] (Z.to_nat (sz cnt))) /\
+  go_kfmt_fmtRepeat fuel (mkw tr buf [x]) w ch cnt
+    = GOk (mkw (pushed w (repeat [ch] (Z.to_nat (sz cnt))) tr) buf [ch], tt).
+Proof.
+  intros Hc Hf. split; [apply fmt_repeat_ok|].
+  unfold go_kfmt_fmtRepeat. wsimp. change (gset [x] 0 ch) with (Some [ch]). cbv beta iota zeta.
+  change (gw 64 0) with 0. change (set_f_world_singleByte (mkw tr buf [x]) [ch]) with (mkw tr buf [ch]).
+  rewrite (repeat_sim ch cnt w buf [ch] Hc (Z.to_nat (sz cnt)) 0 tr fuel) by lia. reflexivity.
+Qed.
+
+Theorem fmtBool_is_translation w tr buf sb g :
+  go_kfmt_fmtBool (mkw tr buf sb) w g = GOk (mkw (pushed w (fmt_bool (of_gany g)) tr) buf sb, tt).
+Proof. destruct g as [n|n|n|n|n|n|n|n|n|n|b|s|s|]; try destruct b; reflexivity. Qed.
+
+(** ---- fmtString ---- *)
+Lemma sz_zi_wrap z : sz (zi z) = wrap_int z.
+Proof.
+  unfold sz, zi, wrap_int, two63z, two64z.
+  destruct (N.ltb_spec (Z.to_N (z mod 18446744073709551616)) 9223372036854775808); lia.
+Qed.
+
+Lemma glen_zi (s : list N) : glen s < 2 ^ 64 -> glen s = zi (Z.of_nat (length s)).
+Proof. unfold glen. rewrite two64_lit. intros H. rewrite zi_small by lia. lia. Qed.
+
+(** [for i := 0; i < len(s); i++ { singleByte[0] = s[i]; doWrite(w, singleByte) }] *)
+Lemma singles_sim s pad g w buf : glen s < 9223372036854775808 -> forall k i tr x f,
+  (i + k = length s)%nat -> (k < f)%nat ->
+  exists y,
+    gloop f (go_kfmt_fmtString_loop3 s pad g w) (mkw tr buf [x], N.of_nat i)
+      = GOk (inl (mkw (pushed w (map (fun c => [c]) (skipn i s)) tr) buf [y], N.of_nat (length s))).
+Proof.
+  intros Hs. unfold glen in Hs.
+  induction k as [|k IH]; intros i tr x f Hik Hf; (destruct f as [|f]; [lia|]);
+    rewrite gloop_S; unfold go_kfmt_fmtString_loop3 at 1; cbv beta iota zeta; wsimp;
+    rewrite gslt_small by (rewrite two63_lit; unfold glen; lia); unfold glen.
+  - destruct (N.ltb_spec (N.of_nat i) (N.of_nat (length s))); [lia|].
+    rewrite skipn_all2 by lia. exists x. replace i with (length s) by lia. reflexivity.
+  - destruct (N.ltb_spec (N.of_nat i) (N.of_nat (length s))); [|lia].
+    rewrite gidxs_small by (rewrite two63_lit; lia). rewrite gidx_some by (unfold glen; lia).
+    rewrite Nat2N.id. set (c := nth i s 0).
+    change (gset [x] 0 c) with (Some [c]). cbv beta iota. wsimp.
+    rewrite (gw64_small' (N.of_nat i + 1)) by (rewrite two64_lit; lia).
+    replace (N.of_nat i + 1) with (N.of_nat (S i)) by lia.
+    destruct (IH (S i) (ev w [c] :: tr) c f ltac:(lia) ltac:(lia)) as [y Hy].
+    exists y.
+    transitivity (gloop f (go_kfmt_fmtString_loop3 s pad g w) (mkw (ev w [c] :: tr) buf [c], N.of_nat (S i))); [reflexivity|].
+    rewrite Hy. rewrite (FmtScanProofs.skipn_nth_cons s i c) by (unfold c; apply nth_error_nth'; lia).
+    cbn [map]. rewrite pushed_cons. reflexivity.
+Qed.
+
+Theorem fmtString_is_translation fuel w tr buf x g pad :
+  pad < 2 ^ 64 ->
+  match g with GAStr s | GABytes s =>
+    glen s < 9223372036854775808 /\ (length s < fuel)%nat /\
+    (Z.to_nat (wrap_int (sz pad - Z.of_nat (length s))) < fuel)%nat
+  | _ => True end ->
+  exists cs y,
+    fmt_string (of_gany g) (sz pad) = Ok cs /\
+    go_kfmt_fmtString fuel (mkw tr buf [x]) w g pad = GOk (mkw (pushed w cs tr) buf [y], tt).
+Proof.
+  intros Hp Hg.
+  destruct g as [n|n|n|n|n|n|n|n|n|n|b|s|s|]; cbn [of_gany fmt_string];
+    try (exists [kfmt_errWrongArgType], x; split; reflexivity).
+  - destruct Hg as [Hs [Hf1 Hf2]].
+    assert (Hs64 : glen s < 2 ^ 64) by (rewrite two64_lit; lia).
+    set (cnt := gsub 64 pad (glen s)).
+    assert (Hcnt : sz cnt = wrap_int (sz pad - Z.of_nat (length s))).
+    { unfold cnt. rewrite <- (zi_sz pad) at 1 by exact Hp. rewrite (glen_zi s Hs64), gsub_zi. apply sz_zi_wrap. }
+    assert (Hcl : cnt < 2 ^ 64) by (unfold cnt, gsub, gw; apply N.mod_lt; discriminate).
+    destruct (fmtRepeat_is_translation fuel w tr buf x 32 cnt Hcl ltac:(rewrite Hcnt; exact Hf2)) as [R1 R2].
+    rewrite Hcnt in R1, R2. rewrite R1, singles_ok. cbn [bind].
+    destruct (singles_sim s pad (GAStr s) w buf Hs (length s) 0%nat
+                (pushed w (repeat [32] (Z.to_nat (wrap_int (sz pad - Z.of_nat (length s))))) tr) 32 fuel ltac:(lia) Hf1) as [y Hy].
+    eexists. exists y. split; [reflexivity|].
+    unfold go_kfmt_fmtString. cbv beta zeta. fold cnt. rewrite R2. cbv beta iota zeta.
+    change (gw 64 0) with (N.of_nat 0). rewrite Hy. cbv beta iota zeta.
+    unfold go_kfmt_fmtString_k2. cbn [skipn]. rewrite pushed_app. reflexivity.
+  - destruct Hg as [Hs [Hf1 Hf2]].
+    assert (Hs64 : glen s < 2 ^ 64) by (rewrite two64_lit; lia).
+    set (cnt := gsub 64 pad (glen s)).
+    assert (Hcnt : sz cnt = wrap_int (sz pad - Z.of_nat (length s))).
+    { unfold cnt. rewrite <- (zi_sz pad) at 1 by exact Hp. rewrite (glen_zi s Hs64), gsub_zi. apply sz_zi_wrap. }
+    assert (Hcl : cnt < 2 ^ 64) by (unfold cnt, gsub, gw; apply N.mod_lt; discriminate).
+    destruct (fmtRepeat_is_translation fuel w tr buf x 32 cnt Hcl ltac:(rewrite Hcnt; exact Hf2)) as [R1 R2].
+    rewrite Hcnt in R1, R2. rewrite R1. cbn [bind].
+    eexists. exists 32. split; [reflexivity|].
+    unfold go_kfmt_fmtString. cbv beta zeta. fold cnt. rewrite R2. cbv beta iota zeta.
+    unfold go_kfmt_fmtString_k2. wsimp. rewrite pushed_app. reflexivity.
+Qed.
+
+(** ---- the bytes the writer received ---- *)
+(** concatenation, in the order of the calls, of the byte slices handed to doWrite *)
+Definition trace_bytes (tr : list gcall) : list N :=
+  List.concat (map (fun c => match c with GCall _ [_; GBytes b] => b | _ => [] end) (rev tr)).
+
+Lemma trace_bytes_pushed w cs tr : trace_bytes (pushed w cs tr) = trace_bytes tr ++ List.concat cs.
+Proof.
+  unfold trace_bytes, pushed. rewrite rev_app_distr, rev_involutive, map_app, concat_app, map_map.
+  f_equal. f_equal. cbn [ev]. apply map_id.
+Qed.
+
+(** the three theorems in the form used by Props/C15_trans.v: what the translated function returns, and that the
+    bytes its doWrite calls carry are the concatenation of the model's chunks *)
+Theorem fmtInt_trans_full fuel w tr buf sb g base pad :
+  length buf = N.to_nat kfmt_numFmtBufLen -> gany_wf g -> base = 8 \/ base = 10 \/ base = 16 -> pad < 2 ^ 64 ->
+  (34 <= fuel)%nat ->
+  exists cs buf',
+    fmt_int buf (of_gany g) (Z.of_N base) (sz pad) = Ok (cs, buf') /\
+    go_kfmt_fmtInt fuel (mk_go_kfmt_world tr buf sb) w g base pad
+      = GOk (mk_go_kfmt_world (pushed w cs tr) buf' sb, tt) /\
+    trace_bytes (pushed w cs tr) = trace_bytes tr ++ List.concat cs /\
+    length buf' = N.to_nat kfmt_numFmtBufLen.
+Proof.
+  intros Hb Hg Hbase Hp Hf.
+  destruct (fmtInt_is_translation fuel w tr buf sb g base pad Hb Hg Hbase Hp Hf) as [cs [buf' [E [T Hb']]]].
+  exists cs, buf'. repeat split; [exact E|exact T|apply trace_bytes_pushed|exact Hb'].
+Qed.
+
+Theorem fmtString_trans_full fuel w tr buf x g pad :
+  pad < 2 ^ 64 ->
+  match g with GAStr s | GABytes s =>
+    glen s < 9223372036854775808 /\ (length s < fuel)%nat /\
+    (Z.to_nat (wrap_int (sz pad - Z.of_nat (length s))) < fuel)%nat
+  | _ => True end ->
+  exists cs y,
+    fmt_string (of_gany g) (sz pad) = Ok cs /\
+    go_kfmt_fmtString fuel (mk_go_kfmt_world tr buf [x]) w g pad
+      = GOk (mk_go_kfmt_world (pushed w cs tr) buf [y], tt) /\
+    trace_bytes (pushed w cs tr) = trace_bytes tr ++ List.concat cs.
+Proof.
+  intros Hp Hg. destruct (fmtString_is_translation fuel w tr buf x g pad Hp Hg) as [cs [y [E T]]].
+  exists cs, y. repeat split; [exact E|exact T|apply trace_bytes_pushed].
+Qed.
+
+Theorem fmtBool_trans_full w tr buf sb g :
+  go_kfmt_fmtBool (mk_go_kfmt_world tr buf sb) w g
+    = GOk (mk_go_kfmt_world (pushed w (fmt_bool (of_gany g)) tr) buf sb, tt) /\
+  trace_bytes (pushed w (fmt_bool (of_gany g)) tr) = trace_bytes tr ++ List.concat (fmt_bool (of_gany g)).
+Proof. split; [apply fmtBool_is_translation|apply trace_bytes_pushed]. Qed.
+
+Theorem fmtRepeat_trans_full fuel w tr buf x ch cnt :
+  cnt < 2 ^ 64 -> (Z.to_nat (sz cnt) < fuel)%nat ->
+  fmt_repeat ch (sz cnt) = Ok (repeat [ch] (Z.to_nat (sz cnt))) /\
+  go_kfmt_fmtRepeat fuel (mk_go_kfmt_world tr buf [x]) w ch cnt
+    = GOk (mk_go_kfmt_world (pushed w (repeat [ch] (Z.to_nat (sz cnt))) tr) buf [ch], tt).
+Proof. apply fmtRepeat_is_translation. Qed.
+
+(** a base other than 8 / 10 / 16 leaves divider = 0: the first [uval % divider] is Go's division-by-zero panic,
+    in the model ([Panic DivZero]) and in the translation alike *)
+Theorem fmtInt_bad_base_panics fuel w tr buf sb n pad :
+  (1 <= fuel)%nat -> length buf = N.to_nat kfmt_numFmtBufLen ->
+  go_kfmt_fmtInt fuel (mk_go_kfmt_world tr buf sb) w (GAU8 n) 7 pad = GPanic /\
+  fmt_int buf (AInt U8 (Z.of_N n)) 7 (sz pad) = Panic DivZero.
+Proof.
+  intros Hf Hb. destruct fuel as [|f]; [lia|]. split.
+  - unfold go_kfmt_fmtInt. cbv beta zeta. cbn [gas_u8 N.eqb Pos.eqb]. cbv beta iota zeta.
+    unfold go_kfmt_fmtInt_k8. cbv beta iota zeta. rewrite gloop_S. reflexivity.
+  - reflexivity.
+Qed.
